@@ -127,6 +127,27 @@ func (g *Gen) MetaProgram() *Chunk {
 			mt = mts[g.R.Intn(len(mts))]
 		} else {
 			b.Stmts = append(b.Stmts, Local1(mt, tab))
+			if g.R.Intn(4) == 0 {
+				// the metatable has a metatable of its own: handlers are looked up raw,
+				// so nothing "inherited" through it may ever be consulted
+				var parent Expr
+				if g.R.Intn(2) == 0 {
+					parent = &ETable{Items: []TItem{{Kind: TName, Name: "__index", Val: &ETable{Items: []TItem{
+						{Kind: TName, Name: "__metatable", Val: Str("inherited-lock")},
+						{Kind: TName, Name: "__add", Val: g.handler("inherited-add", 2, Num(1))},
+						{Kind: TName, Name: "__index", Val: g.handler("inherited-index", 2, Num(2))},
+						{Kind: TName, Name: "__newindex", Val: g.handler("inherited-newindex", 3, nil)},
+						{Kind: TName, Name: "__eq", Val: N(shEq)}, {Kind: TName, Name: "__lt", Val: N(shLt)}, {Kind: TName, Name: "__le", Val: N(shLe)},
+						{Kind: TName, Name: "__call", Val: g.handler("inherited-call", 2, Num(3))},
+						{Kind: TName, Name: "__concat", Val: g.handler("inherited-concat", 2, Str("c"))},
+						{Kind: TName, Name: "__unm", Val: g.handler("inherited-unm", 1, Num(4))},
+						{Kind: TName, Name: "__tostring", Val: g.handler("inherited-tostring", 1, Str("T"))}}}}}}
+				} else {
+					parent = &ETable{Items: []TItem{{Kind: TName, Name: "__index", Val: Fn([]string{"t", "k"}, false, Blk(CallSN("emit", Str("metatable-of-metatable-consulted"), N("k"))))}}}
+				}
+				b.Stmts = append(b.Stmts, &SCall{Call: CallN("setmetatable", N(mt), parent)})
+				g.cover("mt:has-own-metatable")
+			}
 		}
 		var mk Expr
 		if g.R.Intn(4) == 0 {
@@ -182,7 +203,7 @@ func (g *Gen) MetaProgram() *Chunk {
 	nops := 8 + g.R.Intn(25)
 	for i := 0; i < nops; i++ {
 		var e Expr
-		k := g.R.Intn(19)
+		k := g.R.Intn(21)
 		if k == 15 && g.R.Intn(2) == 0 {
 			k = 8
 		}
@@ -258,6 +279,82 @@ func (g *Gen) MetaProgram() *Chunk {
 			default:
 				e = Idx(o, o)
 			}
+		case 19, 20:
+			// a handler is removed, the operation is tried (and misses), the handler
+			// (the old one or a new one) is installed again, the operation is retried
+			mtn := mts[g.R.Intn(len(mts))]
+			var owner string
+			for oi, m := range mts {
+				if m == mtn {
+					owner = objs[oi]
+				}
+			}
+			evs := []string{"__index", "__newindex", "__add", "__concat", "__eq", "__lt", "__le", "__call", "__unm", "__tostring"}
+			ev := evs[g.R.Intn(len(evs))]
+			use := func() Expr {
+				o := N(owner)
+				switch ev {
+				case "__index":
+					return Dot(o, "missing")
+				case "__add":
+					return Bin("+", o, Num(1))
+				case "__concat":
+					return Bin("..", o, Str("s"))
+				case "__eq":
+					return Bin("==", o, N(objs[g.R.Intn(len(objs))]))
+				case "__lt":
+					return Bin("<", o, o)
+				case "__le":
+					return Bin("<=", o, o)
+				case "__call":
+					return Call(o, Num(1))
+				case "__unm":
+					return Un("-", o)
+				case "__tostring":
+					return Bin("==", CallN("tostring", o), CallN("tostring", o))
+				}
+				return nil
+			}
+			try := func(tag string) {
+				if ev == "__newindex" {
+					b.Stmts = append(b.Stmts, CallSN("emit", Str(tag), &EParen{X: CallN("pcall", Fn(nil, false, Blk(Assign1(Dot(N(owner), g.fresh("nk")), Num(1)))))}))
+					return
+				}
+				okv, rv := g.fresh("ok"), g.fresh("r")
+				b.Stmts = append(b.Stmts, &SLocal{Names: []string{okv, rv}, Exprs: []Expr{CallN("pcall", Fn(nil, false, Blk(Return(use()))))}},
+					CallSN("emit", Str(tag), N(okv), &EParen{X: Bin("or", Bin("and", N(okv), N(rv)), CallN("type", N(rv)))}))
+			}
+			saved := g.fresh("saved")
+			b.Stmts = append(b.Stmts, Local1(saved, CallN("rawget", N(mtn), Str(ev))))
+			try("before")
+			b.Stmts = append(b.Stmts, &SCall{Call: CallN("rawset", N(mtn), Str(ev), &ENil{})})
+			try("removed")
+			var again Expr = N(saved)
+			if g.R.Intn(2) == 0 {
+				np := 2
+				if ev == "__newindex" {
+					np = 3
+				}
+				if ev == "__unm" || ev == "__tostring" {
+					np = 1
+				}
+				var ret Expr = g.handlerRet()
+				if ev == "__tostring" {
+					ret = Str("again")
+				}
+				if ev == "__newindex" {
+					ret = nil
+				}
+				again = g.handler("reinstalled:"+ev, np, ret)
+			}
+			if g.R.Intn(2) == 0 {
+				b.Stmts = append(b.Stmts, Assign1(Dot(N(mtn), ev), again))
+			} else {
+				b.Stmts = append(b.Stmts, &SCall{Call: CallN("rawset", N(mtn), Str(ev), again)})
+			}
+			try("reinstalled")
+			g.cover("reinstall:%s", ev)
+			continue
 		case 17:
 			// __call as the iterator of a generic for
 			mtI, it := g.fresh("mti"), g.fresh("it")
